@@ -1400,6 +1400,9 @@ func (x *Exec) doUnOp(st *State, in *ssa.UnOp) Value {
 		return VBool{Not(v.(VBool).T)}
 	case token.SUB:
 		ti, _ := x.tinfo(in.Type())
+		if ti.Kind == "float" {
+			panic("unsupported:float-negation")
+		}
 		return VInt{x.arith(ti, Sub(IntC(0), x.intOf(v)))}
 	case token.XOR:
 		ti, _ := x.tinfo(in.Type())
@@ -1425,6 +1428,10 @@ func (x *Exec) doBinOp(st *State, in *ssa.BinOp) Value {
 	a, b := x.val(st, in.X), x.val(st, in.Y)
 	switch in.Op {
 	case token.EQL, token.NEQ:
+		if ti, ok := x.tinfo(in.X.Type()); ok && ti.Kind == "float" {
+			// floats are carried as bit patterns; == on floats is not equality of bit patterns (-0 == +0, NaN != NaN)
+			panic("unsupported:float-comparison")
+		}
 		t := x.equal(st, a, b, in)
 		if in.Op == token.NEQ {
 			t = Not(t)
